@@ -29,7 +29,7 @@ fn hexs(b: &[u8]) -> String {
 
 /// projection: relative path (hex) -> [t, size, sha, target, mode, mtime]
 fn project(root: &Path) -> BTreeMap<String, Value> {
-    fn walk(base: &Path, dir: &Path, out: &mut BTreeMap<String, Value>) {
+    fn walk(base: &Path, dir: &Path, out: &mut BTreeMap<String, Value>, inodes: &mut BTreeMap<(u64, u64), String>) {
         let Ok(rd) = std::fs::read_dir(dir) else { return };
         let mut ents: Vec<_> = rd.flatten().map(|e| e.path()).collect();
         ents.sort();
@@ -37,7 +37,11 @@ fn project(root: &Path) -> BTreeMap<String, Value> {
             let rel = p.strip_prefix(base).unwrap().as_os_str().as_bytes().to_vec();
             let Ok(md) = std::fs::symlink_metadata(&p) else { continue };
             let ft = md.file_type();
-            let mut v = json!({"t": "file", "size": "0", "sha": "", "target": "", "mode": "", "mtime": format!("{}.{:09}", md.mtime(), md.mtime_nsec())});
+            let mut v = json!({"t": "file", "size": "0", "sha": "", "target": "", "mode": "", "hl": "", "mtime": format!("{}.{:09}", md.mtime(), md.mtime_nsec())});
+            if ft.is_file() && md.nlink() > 1 {
+                // hard link group: the first path (in walk order) that has this inode
+                v["hl"] = json!(inodes.entry((md.dev(), md.ino())).or_insert_with(|| hexs(&rel)).clone());
+            }
             if ft.is_symlink() {
                 v["t"] = json!("symlink");
                 v["target"] = json!(hexs(std::fs::read_link(&p).unwrap().as_os_str().as_bytes()));
@@ -52,12 +56,12 @@ fn project(root: &Path) -> BTreeMap<String, Value> {
             }
             _ = out.insert(hexs(&rel), v);
             if ft.is_dir() {
-                walk(base, &p, out);
+                walk(base, &p, out, inodes);
             }
         }
     }
     let mut out = BTreeMap::new();
-    walk(root, root, &mut out);
+    walk(root, root, &mut out, &mut BTreeMap::new());
     out
 }
 
@@ -82,6 +86,9 @@ fn build_source(root: &Path, rng: &mut Rng) {
         };
         std::fs::write(root.join(n), data).unwrap();
     }
+    // hard links: g = d/g-link = emptydir/g-link2
+    std::fs::hard_link(root.join("g"), root.join("d/g-link")).unwrap();
+    std::fs::hard_link(root.join("g"), root.join("d/e/g-link2")).unwrap();
     _ = symlink("a", root.join("link"));
     _ = symlink("d/e", root.join("d/dirlink"));
     for (i, n) in ["a", "b", "d/c", "d/e/f", "d/zeros", "g", "d", "d/e", "emptydir"].iter().enumerate() {
